@@ -682,6 +682,56 @@ func c16HasNewline(v interface{}) bool {
 	return false
 }
 
+// c16HasSpecials: some string value contains an XML special character.  With value escaping off such a
+// value is written as it is and may open a CDATA section or a tag of its own: the output then tokenizes,
+// if at all, to something else than what was encoded (C05's subject), so the token-level clauses are
+// evaluated only when escaping is on or no value has specials.
+func c16HasSpecials(v interface{}) bool {
+	switch x := v.(type) {
+	case map[string]interface{}:
+		for _, e := range x {
+			if c16HasSpecials(e) {
+				return true
+			}
+		}
+	case []interface{}:
+		for _, e := range x {
+			if c16HasSpecials(e) {
+				return true
+			}
+		}
+	case string:
+		return strings.ContainsAny(x, "<>&\"'")
+	}
+	return false
+}
+
+// c16HasBadAttr: some attribute entry (key = prefix + name) has a value that is not a non-nil scalar,
+// which the encoder answers with an error.
+func c16HasBadAttr(o xOpts, v interface{}) bool {
+	switch x := v.(type) {
+	case map[string]interface{}:
+		for k, e := range x {
+			if len(o.AP) > 0 && len(k) > len(o.AP) && strings.HasPrefix(k, o.AP) {
+				switch e.(type) {
+				case map[string]interface{}, []interface{}, nil:
+					return true
+				}
+			}
+			if c16HasBadAttr(o, e) {
+				return true
+			}
+		}
+	case []interface{}:
+		for _, e := range x {
+			if c16HasBadAttr(o, e) {
+				return true
+			}
+		}
+	}
+	return false
+}
+
 // c16NoNewline: a deep copy with "\n" in string values replaced.
 func c16NoNewline(v interface{}) interface{} {
 	switch x := v.(type) {
@@ -821,7 +871,10 @@ func c16MapCase(c *c16Ctx, r *Rng, o xOpts, m map[string]interface{}, root strin
 	// ---- ascending key order, indentation = whitespace only (on the token streams of the real tokenizer)
 	var cmpToks []gtok
 	var cmpErr error
-	if xmlOut.ok() {
+	if xmlOut.ok() && !o.Esc && c16HasSpecials(m) {
+		run.count("escaping off and a value with XML specials: token clauses skipped")
+		cmpErr = fmt.Errorf("not evaluated")
+	} else if xmlOut.ok() {
 		cmpToks, cmpErr = tokenize(xmlOut.B, true)
 		if cmpErr != nil {
 			run.count("Xml output not tokenizable (unescaped specials / invalid names): token clauses skipped")
@@ -983,6 +1036,51 @@ func c16MapCase(c *c16Ctx, r *Rng, o xOpts, m map[string]interface{}, root strin
 		c.add(fmt.Sprintf("CPerm %s %s %s %s", o.coq(), r.c16CoqValShuffled(variants[1]), r.c16CoqValShuffled(variants[2]), c16CoqRoot(root)),
 			"variants 1 and 2 in their own entry orders", "", nontrivial)
 	}
+	if r.chance(0.4) {
+		// AnyXml(v, rootTag, elemTag) on a list built from the Map's values (single-entry members name their
+		// own tag) or on the Map itself: deterministic, and equal to the model (any_xml_items)
+		var v interface{} = variants[r.Intn(len(variants))]
+		if r.chance(0.7) {
+			var l []interface{}
+			for _, k := range sortedKeys(m) {
+				switch r.Intn(3) {
+				case 0:
+					l = append(l, map[string]interface{}{k: m[k]})
+				case 1:
+					l = append(l, m[k])
+				}
+			}
+			if r.chance(0.3) {
+				l = append(l, m)
+			}
+			v = l
+		}
+		rt, et := r.pick([]string{"root", "doc", "r-t"}), r.pick([]string{"element", "e", "item"})
+		any := func(x interface{}) ([]byte, error) { return mxj.AnyXml(x, rt, et) }
+		var out, out2 c16Out
+		acc := true
+		if mm, isMap := v.(map[string]interface{}); isMap {
+			acc, _ = accept(func(mv mxj.Map) ([]byte, error) { return any(map[string]interface{}(mv)) }, mm)
+		}
+		v2 := r.c16Rebuild(v)
+		c16WithOpts(o, func() {
+			out = c16Call(func() ([]byte, error) { return any(v) })
+			out2 = c16Call(func() ([]byte, error) { return any(v2) })
+		})
+		run.sum.OracleEvals++
+		if !out.same(out2) {
+			c.violate("anyxml-deterministic", "AnyXml returns different bytes for equal values", "AnyXml on a rebuilt copy", out2.text(), out.text())
+		}
+		if _, isList := v.([]interface{}); isList && c16HasBadAttr(o, v) {
+			// anyxml.go overwrites the member's encoding error with the result of writing the end tag and returns
+			// the partial output with a nil error (reported; Model/XmlEnc.v returns the error)
+			run.count("AnyXml on a list with an invalid attribute value: no model term (error swallowed by AnyXml, reported)")
+		} else {
+			run.count("AnyXml term")
+			c.add(fmt.Sprintf("CX (XAny %s %s %s %s %s %s)", o.coq(), r.c16CoqValShuffled(v), coqStr(rt), coqStr(et), coqBool(acc), out.xout()),
+				"AnyXml(v, "+rt+", "+et+")", out.text(), nontrivial)
+		}
+	}
 	{
 		safe := r.chance(0.5)
 		v := variants[r.Intn(len(variants))]
@@ -1068,7 +1166,9 @@ func c16SeqCase(c *c16Ctx, r *Rng, o xOpts, doc string) {
 	}
 	docToks, derr2 := tokenize([]byte(doc), true)
 	outToks, oerr := tokenize(first[0].B, true)
-	if derr2 != nil || oerr != nil {
+	if !o.Esc && c16HasSpecials(m) {
+		run.count("seq: escaping off and a value with XML specials: token clauses skipped")
+	} else if derr2 != nil || oerr != nil {
 		run.count("seq: output not tokenizable: token clauses skipped")
 	} else {
 		run.sum.OracleEvals++
@@ -1290,7 +1390,7 @@ func c16MapsCase(c *c16Ctx, r *Rng, o xOpts, maps []map[string]interface{}) {
 func c16ShapeOf(v interface{}) string { return c16Clip(canon(v), 1500) }
 
 // c16One generates and runs the case of one sub-seed.
-func c16One(run *Run, caseSeed int64, emit bool) {
+func c16One(run *Run, caseSeed int64, emit bool) c16Input {
 	r := newRng(caseSeed)
 	o := r.c16EncOpts()
 	c := &c16Ctx{run: run, emit: emit, in: c16Input{CaseSeed: caseSeed, Opts: &o}}
@@ -1315,7 +1415,7 @@ func c16One(run *Run, caseSeed int64, emit bool) {
 		m, _ := out.Ret.(map[string]interface{})
 		if out.Panicked || out.Err != nil || m == nil {
 			run.count("map-decoded: document not decoded")
-			return
+			return c.in
 		}
 		c.in.Shape = c16Clip(doc, 1500)
 		run.count("kind:map-decoded")
@@ -1355,6 +1455,7 @@ func c16One(run *Run, caseSeed int64, emit bool) {
 		run.count("kind:maps")
 		c16MapsCase(c, r, o, maps)
 	}
+	return c.in
 }
 
 func c16CaseSeed(seed int64, i int) int64 { return seed*1000003 + int64(i)*7919 + 17 }
@@ -1390,8 +1491,8 @@ func replayC16(raw []byte) error {
 	}
 	defer os.RemoveAll(c16TmpDir)
 	run := newRun("C16", "", 0, 1, c16Header, "c16case", "replay")
-	c16One(run, in.CaseSeed, false)
-	fmt.Printf("input:  kind=%s case_seed=%d root=%q\nshape:  %s\n", in.Kind, in.CaseSeed, in.Root, in.Shape)
+	re := c16One(run, in.CaseSeed, false)
+	fmt.Printf("input:  kind=%s case_seed=%d root=%q options=%s\nshape:  %s\n", re.Kind, re.CaseSeed, re.Root, mustJSON(re.Opts), re.Shape)
 	if len(run.sum.Violations) == 0 {
 		fmt.Println("result: every clause holds on this run (an order-dependent failure may need another run: Go randomises map iteration)")
 		return nil
